@@ -13,7 +13,8 @@ class Unit:
                  harness=None, setup='', args=None, post='', backend='cadical', timeout=600, mem_gb=12,
                  rec=False, cbmc_flags=(), props=(), note='', extra_c='', expect_fail=(), opaque=None,
                  split=False, tier='quick', unwindset=(), defines=(), extern_records=(), bounded=None,
-                 stubs=(), variants=None, pre_c='', object_bits=None, checks=None, bind='', ghost=(), bind_assigns=()):
+                 stubs=(), variants=None, pre_c='', object_bits=None, checks=None, bind='', ghost=(), bind_assigns=(), gen_stubs=None):
+        self.gen_stubs = gen_stubs or []   # [(regex on callee C name, body template with $PROTO args)] executable assumed contracts
         self.ghost = list(ghost)    # [(ctype, name, entry expression over $this/$k)] -> per-function ghost entry bindings '@name'
         self.bind_assigns = list(bind_assigns)
         self.bind = bind            # ghost assignments emitted before each contract-replaced call of this function
@@ -49,6 +50,92 @@ class Unit:
         self.variants = variants      # list of (suffix, [defines]) -> one query each
         self.object_bits = object_bits
         self.checks = checks
+
+
+class BmcUnit:
+    """Bounded stand-in: real lowered bodies (no contracts), plain cbmc with --unwind K --unwinding-assertions."""
+    def __init__(self, id, fns, harness, prelude, unwind, bound_text, props=(), opaque=None, stubs=(), tier='quick',
+                 timeout=1800, defines=(), note='', backend='cadical', mem_gb=24, object_bits=8, unwindset=()):
+        self._unwindset = list(unwindset)
+        self.id = id
+        self.fns = list(fns)
+        self.harness = harness
+        self.prelude = prelude
+        self.unwind = unwind
+        self.bounded = bound_text
+        self.props = list(props)
+        self.opaque = opaque or {}
+        self.stubs = list(stubs)
+        self.tier = tier
+        self.timeout = timeout
+        self.defines = list(defines)
+        self.note = note
+        self.backend = backend
+        self.mem_gb = mem_gb
+        self.object_bits = object_bits
+        self.variants = None
+        self.fn = None
+        self.unwindset = list(self._unwindset)
+        self.cbmc_flags = []
+        self.extern_records = []
+
+
+def check_bmc(ast, unit, wd):
+    r = UnitResult(unit)
+    t0 = time.time()
+    os.makedirs(wd, exist_ok=True)
+    try:
+        opaque = {'CDNS::BaseCborOutputWriter': 'struct BaseCborOutputWriter'}
+        opaque.update(unit.opaque)
+        L = cdns2c.Lower(ast, opaque=opaque)
+        fns = [L.lower_function(find_one(ast, ref)) for ref in unit.fns]
+        have = set(f.cname for f in fns) | set(unit.stubs)
+        missing = sorted(set(c for f in fns for c in f.calls if c not in have))
+        if missing:
+            raise LowerError('unresolved callees: ' + ', '.join(missing))
+        parts = ['#define %s' % d for d in unit.defines]
+        parts.append('#include "%s"' % unit.prelude)
+        parts.append(L.emit_types())
+        parts += [f.proto + ';' for f in fns]
+        parts += [cdns2c.render(f) for f in fns]
+        parts.append('void harness(void)\n{\n%s\n}\n' % unit.harness)
+        cfile = os.path.join(wd, unit.id + '.c')
+        open(cfile, 'w').write('\n'.join(parts))
+        gb = os.path.join(wd, unit.id + '.gb')
+        rc, so, se, dt = run(['goto-cc', '--function', 'harness', '-I', CONTRACTS, '-DCANARY_ON', cfile, '-o', gb], 120)
+        if rc != 0:
+            raise LowerError('goto-cc failed: ' + (so + se)[-2000:])
+    except LowerError as e:
+        r.reason = 'extraction: ' + str(e)
+        r.wall = time.time() - t0
+        return r
+    r.cfile, r.gb = cfile, gb
+    r.facts = {'target': ', '.join(f.cname for f in fns), 'src': fns[0].src, 'inlined': [f.cname for f in fns], 'replaced': []}
+    cmd = cbmc_cmd(unit, gb, [])
+    r.cmd = ' '.join(cmd)
+    rc, so, se, dt = run(cmd, unit.timeout, unit.mem_gb)
+    r.solver_s = dt
+    res, status, err = parse_json_ui(so)
+    if res is None:
+        r.reason = 'cbmc gave no result (rc=%s): %s' % (rc, (se or err or so[-300:])[:600])
+        r.wall = time.time() - t0
+        return r
+    for x in res:
+        pid, desc, st = x['property'], x.get('description', ''), x['status']
+        if desc.startswith('CANARY'):
+            r.canaries[pid] = (desc, st)
+            continue
+        r.obligations[pid] = {'desc': desc, 'status': st}
+        if st != 'SUCCESS':
+            r.failed.append(pid)
+    if not r.obligations:
+        r.reason = 'no obligations generated'
+    elif not r.canaries or any(st == 'SUCCESS' for _, st in r.canaries.values()):
+        r.reason = 'vacuous: canary missing or unreachable'
+    else:
+        r.status = 'failed' if r.failed else 'ok'
+    r.wall = time.time() - t0
+    return r
 
 
 class Lemma:
@@ -197,16 +284,35 @@ def build_c(ast, unit, registry):
             binds[f.cname] = b
         callee_ghosts += [ghost_name(n, f.cname) for ct, n, e in ru.ghost] + list(ru.bind_assigns)
     binds_list = ', '.join(callee_ghosts)
-    tcontract = ghost_requires(unit, tf) + subst(expand_ghost(unit.contract, unit, tf.cname), tf)
+    ucontract = unit.contract(ast, L, tf) if callable(unit.contract) else unit.contract
+    tcontract = ghost_requires(unit, tf) + subst(expand_ghost(ucontract, unit, tf.cname), tf)
     if callee_ghosts:
         tcontract += '\n__CPROVER_assigns(%s)\n' % binds_list
-    tloops = {k: subst(expand_ghost(v, unit, tf.cname), tf).replace('@BINDS', binds_list) for k, v in unit.loops.items()}
+    uloops = unit.loops(ast, L, tf) if callable(unit.loops) else unit.loops
+    tloops = {k: subst(expand_ghost(v, unit, tf.cname), tf).replace('@BINDS', binds_list) for k, v in uloops.items()}
     fns = [(tf, tcontract, tloops)] + inl_fns
     for ref in unit.stubs:
         if isinstance(ref, str):
             have.add(ref)      # C name of a library/virtual callee defined by the prelude
         else:
             have.add(L.cname(find_one(ast, ref)))
+    # callees whose assumed contract is an executable stub generated from the callee's declaration
+    gen = []
+    allf = [tf] + [f for f, _, _ in inl_fns]
+    for f in allf:
+        for cn, d in f.calldecls.items():
+            if cn in have:
+                continue
+            for rx, body in unit.gen_stubs:
+                if re.match(rx, cn):
+                    have.add(cn)
+                    proto = L.proto_of_decl(d)
+                    pnames = [x.strip().split(' ')[-1].lstrip('*') for x in proto[proto.index('(') + 1:-1].split(',')]
+                    b = body
+                    for i, pn in enumerate(pnames):
+                        b = b.replace('$P%d' % i, pn)
+                    gen.append('%s\n{\n%s\n}\n' % (proto, b.replace('$CN', cn)))
+                    break
     # every repo callee must be accounted for
     missing = []
     for f, _, _ in fns:
@@ -216,7 +322,7 @@ def build_c(ast, unit, registry):
     facts = {'target': tf.cname, 'src': tf.src, 'locals': tf.locals, 'loops': tf.loops,
              'calls': sorted(set(tf.calls)), 'libcalls': sorted(set(tf.libcalls)), 'replaced': replaced,
              'inlined': [f.cname for f, _, _ in fns[1:]], 'unresolved_callees': missing, 'rules': tf.rules}
-    for k in unit.loops:
+    for k in uloops:
         if k > tf.loops:
             raise LowerError("loop contract #%d given but %s has %d loops" % (k, tf.cname, tf.loops))
     types = L.emit_types()
@@ -232,6 +338,7 @@ def build_c(ast, unit, registry):
         parts.append(f.proto + ';')
     parts.extend(protos)
     parts.append(unit.extra_c)
+    parts.extend(gen)
     for f, c, lc in reversed(fns):
         parts.append(insert_binds(cdns2c.render(f, c, lc), binds, f))
     # harness
@@ -315,6 +422,16 @@ def _limits(mem_gb):
     return f
 
 
+def run_cbmc(unit, gb, extra, timeout, mem_gb):
+    """run cbmc; on 'too many addressed objects' retry with more object bits (sticky for the unit)"""
+    while True:
+        rc, so, se, dt = run(cbmc_cmd(unit, gb, extra), timeout, mem_gb)
+        if 'too many addressed objects' in so + se and (unit.object_bits or 8) < 14:
+            unit.object_bits = (unit.object_bits or 8) + 2
+            continue
+        return rc, so, se, dt
+
+
 def run(cmd, timeout, mem_gb=12, cwd=None):
     t0 = time.time()
     try:
@@ -389,6 +506,8 @@ def cbmc_cmd(unit, gb, extra=()):
     if unit.unwindset:
         cmd += ['--unwinding-assertions']
     cmd += unit.cbmc_flags
+    if isinstance(unit, BmcUnit) and '--unwind' not in extra:
+        cmd += ['--unwind', str(unit.unwind), '--unwinding-assertions', '--nondet-static']
     cmd += list(extra)
     return cmd
 
@@ -457,7 +576,7 @@ def check_unit(ast, unit, registry, wd, variant=None):
             ex = []
             for pn in g:
                 ex += ['--property', pn]
-            return run(cbmc_cmd(unit, gb, ex), unit.timeout, unit.mem_gb)
+            return run_cbmc(unit, gb, ex, unit.timeout, unit.mem_gb)
         with ThreadPoolExecutor(max_workers=int(os.environ.get('VERIF_JOBS_INNER', '8'))) as ex:
             outs = list(ex.map(one, groups))
         allres = []
@@ -471,7 +590,7 @@ def check_unit(ast, unit, registry, wd, variant=None):
             allres.extend([x for x in res if x['property'] in g])
         res = allres
     else:
-        rc, so, se, dt = run(cmd, unit.timeout, unit.mem_gb)
+        rc, so, se, dt = run_cbmc(unit, gb, [], unit.timeout, unit.mem_gb)
         r.solver_s = dt
         res, status, err = parse_json_ui(so)
         if res is None:
@@ -510,7 +629,7 @@ def check_unit(ast, unit, registry, wd, variant=None):
 
 def get_trace(unit, gb, pid, timeout=600):
     """re-run one failed obligation with --trace; return list of (lhs, value) assignments in harness scope"""
-    rc, so, se, dt = run(cbmc_cmd(unit, gb, ['--property', pid, '--trace']), timeout, unit.mem_gb)
+    rc, so, se, dt = run_cbmc(unit, gb, ['--property', pid, '--trace'], timeout, unit.mem_gb)
     vals = []
     try:
         data = json.loads(so)
@@ -525,6 +644,13 @@ def get_trace(unit, gb, pid, timeout=600):
                         lhs = stp.get('lhs')
                         v = stp.get('value', {})
                         fnn = stp.get('sourceLocation', {}).get('function', '')
-                        val = v.get('data', v.get('name'))
-                        vals.append((fnn, lhs, val))
+                        def flat(prefix, vv):
+                            if 'members' in vv:
+                                for mm in vv['members']:
+                                    flat(prefix + '.' + mm.get('name', '?'), mm.get('value', {}))
+                            elif 'elements' in vv:
+                                pass
+                            else:
+                                vals.append((fnn, prefix, vv.get('data', vv.get('name'))))
+                        flat(lhs, v)
     return vals, ''
